@@ -49,6 +49,8 @@ def gen_osu_doc(r: random.Random, hi: int = 10, keys: int | None = None) -> dict
         o = dict(x=x, y=r.choice([192, 192, 0, 384]), offset=t, hitsound_set=r.choice([0, 0, 0, 2, 4, 8, 6, 10, 12, 14, 15]),
                  sample_set=r.randrange(4), addition_set=r.randrange(4), custom_set=r.choice([0, 0, 1, 2, 17]),
                  volume=r.choice([0, 0, 10, 30, 50, 70, 100]), hitsound_file=r.choice(OSU_FILES))
+        if r.random() < 0.3:
+            o.update(sample_set=0, addition_set=0, custom_set=0, volume=0, hitsound_file="")  # the default hitSample 0:0:0:0:
         if r.random() < 0.35:
             o["end"] = t + r.choice([0, 1, 50, 100, 250, 500, 1000, 333, 2000, r.randint(1, 5000)])
             o["type"] = r.choice([128, 128, 132])
@@ -101,7 +103,7 @@ def gen_osu_doc(r: random.Random, hi: int = 10, keys: int | None = None) -> dict
 
 def gen_osu_fmt(r: random.Random, knobs: dict) -> dict:
     return dict(newline=knobs.get("stored_newline", "lf"), colours=r.random() < 0.3, space_all=r.random() < 0.2,
-                trailing_newline=r.random() < 0.8, overlay_layer=r.random() < 0.8)
+                trailing_newline=r.random() < 0.8, overlay_layer=r.random() < 0.8, omit_default_hitsample=r.random() < 0.25)
 
 
 # ---------------------------------------------------------------- quaver
@@ -278,7 +280,8 @@ def gen_sm_doc(r: random.Random, hi: int = 4, pipeline: dict | None = None) -> d
 
 
 def gen_sm_fmt(r: random.Random, knobs: dict) -> dict:
-    return dict(newline=knobs.get("stored_newline", "lf"), lead_comment=r.random() < 0.3, bpms_multiline=r.random() < 0.4,
+    return dict(newline=knobs.get("stored_newline", "lf"), lead_comment=r.choice([False, False, True, "sep"]), bpms_multiline=r.random() < 0.4,
+                row_comments=r.choice([False, False, False, True, "sep"]), comma_style=r.choice(["own", "own", "own", "after_row", "before_row"]),
                 blank_after_header=r.random() < 0.8, chart_comment=r.random() < 0.8, indent=r.random() < 0.8,
                 measure_comments=r.random() < 0.5, blank_rows=r.random() < 0.3, space_blank=r.random() < 0.3,
                 row_trailing_space=r.random() < 0.15)
@@ -547,7 +550,7 @@ def gen_bms_doc(r: random.Random, hi: int = 6, layout: str | None = None, odd_te
 
 def gen_bms_fmt(r: random.Random, knobs: dict) -> dict:
     return dict(newline="lf" if knobs.get("stored_newline") == "lf" else "crlf", lead_comment=r.random() < 0.4,
-                blank_between=r.random() < 0.3)
+                blank_between=r.random() < 0.3, indent_lines=r.choice([False, False, False, "some", "all"]))
 
 
 # ---------------------------------------------------------------- O2Jam (binary first, C07)
@@ -703,7 +706,7 @@ def gen_osu_pipeline_doc(r: random.Random, keys: int, hi: int, t0: int = 0) -> d
         objs.append(dict(x=r.randint(lo, hi_x), y=192, offset=t, end=e, type=128, hitsound_set=0, sample_set=0, addition_set=0, custom_set=0, volume=0, hitsound_file=""))
     objs.sort(key=lambda o: o["offset"])
     doc["objs"] = objs
-    doc["tps"] = [dict(kind="bpm", offset=t, code=repr(60000.0 / b), meter=4, sample_set=0, sample_set_index=0, volume=50, effects=0) for t, b in tempo]
+    doc["tps"] = [dict(kind="bpm", offset=t, code=repr(60000.0 / b), meter=r.choice([4, 4, 3, 5, 7, 6]), sample_set=0, sample_set_index=0, volume=50, effects=0) for t, b in tempo]
     if len(doc["tps"]) > 1 and r.random() < 0.3:
         r.shuffle(doc["tps"])  # a file may list its timing points in any order
     doc["samples"] = []
